@@ -1,7 +1,7 @@
-SPECIFICATION Spec
+SPECIFICATION DirectedSpec
 CONSTANTS
-  MaxLen = 8
-  Directed = FALSE
+  MaxLen = 4
+  Directed = TRUE
   Emit = TRUE
 INVARIANT Inv
 INVARIANT EmitReplay
